@@ -91,6 +91,7 @@ pub struct Sim {
     stop: bool,
     /// a plain file sits where rebuild wants to put its index backup
     backup_blocked: bool,
+    sparse_requests_observed: u32,
     had_restart: bool,
     had_crash: bool,
     /// a store returned an error since the last restart (what it left behind may surface there)
@@ -140,6 +141,7 @@ impl Sim {
             pending_fsize: None,
             stop: false,
             backup_blocked: false,
+            sparse_requests_observed: 0,
             had_restart: false,
             had_crash: false,
             failed_store_since_restart: false,
@@ -592,6 +594,13 @@ impl Sim {
             Op::ExtraDel(t, k) => self.do_extra(i, *t, k, None),
             Op::TakeRef(id) => self.take_ref(i, id),
             Op::Inflate(end) => self.do_inflate(i, *end),
+            Op::InflateOnto(distance, id) => {
+                let off = self.model.offsets.iter().find(|(_, (x, _))| x == id).map(|(o, _)| *o);
+                match off {
+                    Some(o) => self.do_inflate(i, distance + o),
+                    None => None,
+                }
+            }
             Op::Get(_) | Op::Has(_) | Op::Stats => None,
             Op::RemoveBackup(which) => {
                 let e = self.dir.join("event.map.bak");
@@ -645,9 +654,22 @@ impl Sim {
 
     /// Compare the real store with the model after a mutating op; attribute the first mismatch.
     fn check_against_model(&mut self, i: usize, ctx: &OpCtx) -> Option<Finding> {
-        if self.cfg.obs_level == 9 && ctx.kind == CtxKind::Store {
+        let sparse_skip = if self.cfg.obs_level == 9 && ctx.kind == CtxKind::Store {
+            let is_request = ctx.event.as_ref().map(|e| e.kind == 5).unwrap_or(false);
+            // (requests are observed while that is cheap: in small stores, and the first few of a
+            // long series)
+            if is_request && (self.model.events.len() <= 300 || self.sparse_requests_observed < 6) {
+                self.sparse_requests_observed += 1;
+                false
+            } else {
+                true
+            }
+        } else {
+            false
+        };
+        if sparse_skip {
             // bulk histories: stores are not observed one by one (the observation after the next
-            // removal / vanish / restart, and the final one, cover them)
+            // deletion request / removal / vanish / restart, and the final one, cover them)
             self.last_obs = None;
             return None;
         }
@@ -1086,7 +1108,20 @@ impl Sim {
         let mut also: &'static [&'static str] = &[];
 
         let result: Option<Finding> = match &out {
-            StoreOutcome::Panic(p) => Some(self.finding(i, "store-panicked", &["C04", "C12"], format!("store_event panicked: {p}"))),
+            StoreOutcome::Panic(p) => {
+                // references held across a store that blew up: are they still what they were?
+                let refs = if self.refs.is_empty() { None } else { self.check_refs(i, true) };
+                let mut f = self.finding(i, "store-panicked", &["C04", "C12"], format!("store_event panicked: {p}"));
+                if let Some(r) = refs {
+                    for p in r.props {
+                        if !f.props.contains(&p) {
+                            f.props.push(p);
+                        }
+                    }
+                    f.detail.push_str(&format!("; {}: {}", r.clause, r.detail));
+                }
+                Some(f)
+            }
             StoreOutcome::Ok(off) => {
                 // refusals that the statements REQUIRE
                 if expect.refusals.contains(&Refusal::Deleted) {
